@@ -19,7 +19,7 @@ import ast
 from typing import Any
 
 from .context import Analysis
-from .loader import FuncInfo
+from .loader import FuncInfo, const_eval
 from .minieval import MiniEval, Obj, Raised, Unsupported, _Return
 
 
@@ -60,8 +60,9 @@ class Stub:
 class Hook:
     """A checker-supplied callable placed in a stub attribute (stands for a method the rule abstracts away)."""
 
-    def __init__(self, fn):
+    def __init__(self, fn, **attrs):
         self.fn = fn
+        self.attrs = attrs  # a class stand-in: RuleInfo(...) and RuleInfo.bind(...)
 
 
 class Bound:
@@ -111,8 +112,8 @@ class ModelInterp(MiniEval):
             mod = self.a.p.modules.get(m)
             if mod is not None and n in mod.assigns:
                 try:
-                    return ast.literal_eval(mod.assigns[n])
-                except Exception:  # noqa: BLE001
+                    return const_eval(mod.assigns[n])
+                except ValueError:
                     pass
             if q.startswith('builtins.') or '.' in q:
                 ext = _EXTERNAL.get(q)
@@ -164,6 +165,8 @@ class ModelInterp(MiniEval):
         if isinstance(base, Obj) and not attr.startswith('__'):
             if hasattr(base, attr):
                 return getattr(base, attr)
+        if isinstance(base, Hook) and attr in base.attrs:
+            return base.attrs[attr]
         if isinstance(base, tuple) and attr in getattr(base, '_fields', ()):
             return getattr(base, attr)  # checker-made namedtuple stand-in
         raise Unsupported(f'attribute .{attr} on {type(base).__name__}')
@@ -257,7 +260,7 @@ class ModelInterp(MiniEval):
             raise Unsupported(f'super().{f.attr}')
         if isinstance(f, ast.Attribute):
             recv = self.expr(f.value, env)
-            if isinstance(recv, (Stub, Recorder, ClassRef, ModuleRef)):
+            if isinstance(recv, (Stub, Recorder, ClassRef, ModuleRef)) or (isinstance(recv, Hook) and f.attr in recv.attrs):
                 target = self.get_attr(recv, f.attr)
                 if isinstance(target, Hook):
                     args, kwargs = self._args(e, env)
@@ -391,7 +394,8 @@ class ModelInterp(MiniEval):
                 env[a_.arg] = kwargs[a_.arg]
             elif d is not None:
                 env[a_.arg] = self.expr(d, {})
-        from .minieval import _is_generator
+        from .minieval import _bind_star, _is_generator
+        _bind_star(fn, params, args, kwargs, env)
         if _is_generator(fn):
             env['__yields__'] = []
             try:
@@ -429,6 +433,31 @@ class ModelInterp(MiniEval):
             finally:
                 if s.finalbody:
                     self.block(s.finalbody, env)
+            return
+        if isinstance(s, ast.ImportFrom) and self.modstack:
+            # function-level import: checker overrides first, then the project entity
+            cur = self.modstack[-1]
+            m = self.a.p.modules.get(cur)
+            pkg = cur if (m is not None and m.is_pkg) else cur.rpartition('.')[0]
+            for _ in range(max(0, s.level - 1)):
+                pkg = pkg.rpartition('.')[0]
+            base = (pkg + '.' + s.module if s.module else pkg) if s.level else (s.module or '')
+            for al in s.names:
+                nm = al.asname or al.name
+                if al.name in self.globals:
+                    env[nm] = self.globals[al.name]
+                    continue
+                q = f'{base}.{al.name}'
+                if q in self.a.p.modules:
+                    env[nm] = ModuleRef(q)
+                else:
+                    q = self.a.p.resolve(base, al.name) if base in self.a.p.modules else q
+                    if q in self.a.p.classes:
+                        env[nm] = ClassRef(q)
+                    elif q in self.a.p.functions:
+                        env[nm] = FuncRef(self.a.p.functions[q])
+                    else:
+                        raise Unsupported(f'import of {q}')
             return
         if isinstance(s, ast.Raise) and s.exc is None and '__handling__' in env:
             raise env['__handling__']
